@@ -1,0 +1,15 @@
+//go:build verif
+
+package attachment
+
+import "net"
+
+// VerifServeConn builds the same connection object that GoJT808.Run builds for an
+// accepted socket and runs it synchronously on conn. It is compiled only with the
+// build tag "verif"; with net.Pipe every Write of the peer arrives as one Read,
+// which gives the verification harness exact control over read boundaries.
+func VerifServeConn(conn net.Conn, opts ...Option) {
+	options := newOptions(opts)
+	c := newConnection(conn, options.ActiveSafetyType, options.DataHandleFunc, options.FileEventerFunc())
+	c.run()
+}
